@@ -8,6 +8,7 @@ package main
 // One Gallina `CHandler` case per configuration (model: coq/model/C06_model.v handle_index).
 
 import (
+	"bytes"
 	"context"
 	"encoding/json"
 	"errors"
@@ -18,7 +19,9 @@ import (
 	"sync"
 	"testing"
 
+	"git.arvados.org/arvados.git/lib/config"
 	"git.arvados.org/arvados.git/sdk/go/arvados"
+	"git.arvados.org/arvados.git/sdk/go/ctxlog"
 	"github.com/prometheus/client_golang/prometheus"
 	"github.com/sirupsen/logrus"
 )
@@ -99,7 +102,19 @@ func TestVerifC06Handler(t *testing.T) {
 		c06VolMtx.Lock()
 		c06VolSpecs, c06VolCalls = specs, nil
 		c06VolMtx.Unlock()
-		cluster := testCluster(t)
+		ldr := config.NewLoader(bytes.NewBufferString("Clusters: {zzzzz: {}}"), ctxlog.TestLogger(t))
+		ldr.Path = "-" // no /etc/arvados/config.yml in the sandbox
+		cfg, err := ldr.Load()
+		if err != nil {
+			t.Fatal(err)
+		}
+		cluster, err := cfg.GetCluster("")
+		if err != nil {
+			t.Fatal(err)
+		}
+		cluster.SystemRootToken = "verif-system-root-token-0123456789"
+		cluster.Collections.BlobSigning = false
+		cluster.Services.Controller.ExternalURL = arvados.URL{Scheme: "http", Host: "controller.example"}
 		cluster.Volumes = map[string]arvados.Volume{}
 		for k := range specs {
 			cluster.Volumes[fmt.Sprintf("zzzzz-nyw5e-%015d", k)] = arvados.Volume{Replication: 1, Driver: "verifidx", DriverParameters: json.RawMessage(fmt.Sprintf(`{"K":%d}`, k))}
